@@ -39,6 +39,8 @@ def exc_key(x: dict, exc: dict, variant: str) -> str:
     where = "get_kwargs" if wh.endswith("_get_kwargs") else ("httpx" if wh.endswith(("sync_detailed", "asyncio_detailed")) else "other")
     if (x.get("body") or {}).get("ambiguous_dispatch"):
         return "multi_body_same_runtime_type"
+    if "union_two_array_members" in ((x.get("body") or {}).get("flags") or []) and where == "get_kwargs":
+        return "exception:union_two_array_members"
     if exc["type"] == "RuntimeError" and variant.startswith("asyncio") and (x.get("body") or {}).get("body_type") == "content":
         return "exception:RuntimeError:asyncio:octet_stream_body"
     nonstr = x.get("nonstr") or []
